@@ -48,7 +48,7 @@ def run(data, opts):
         bursts = opts.get("_bursts")
         stream = S.TrackingStream(data, bursts) if bursts else io.BytesIO(data)
         o = {k: v for k, v in opts.items() if not k.startswith("_")}
-        return S.read_all(stream, o, handler=(lambda e: None) if o["quitonerror"] == 1 else None,
+        return S.read_all(stream, o, handler=S.handler_returning(len(data) + o.get("protfilter", 7)) if o["quitonerror"] == 1 else None,
                           limit=4 * len(data) + 50)
     finally:
         core.log_on()
